@@ -50,3 +50,31 @@ Lemma op_enum_ok :
   map op_of_Z [circuit_XOR; circuit_XNOR; circuit_AND; circuit_OR; circuit_INV]
   = [XOR; XNOR; AND; OR; INV].
 Proof. vm_compute. reflexivity. Qed.
+
+(* What the circuit-file parsers enforce: [wf] without "no gate writes an input wire". *)
+Definition wf_parser (c : circuit) : bool :=
+  (ninputs c <=? nwires c)%nat && (noutputs c <=? nwires c)%nat &&
+  wf_gates (nwires c) 0 (init_asg c) (gates c) &&
+  forallb (fun w => nth w (final_asg (init_asg c) (gates c)) false) (output_wires c).
+
+(* a parser-accepted circuit whose first gate overwrites input wire 0 *)
+Definition overwrite_circuit : circuit :=
+  mkCircuit 3 2 1 [mkGate 0 1 0 XOR; mkGate 0 1 2 AND].
+
+Definition decoded_outputs (pi : N -> N) (rnd : nat -> N) (c : circuit) (x : list bool) : option (list (option bool)) :=
+  let g := garble pi rnd [] c in
+  match geval pi c (encode g c x) (gTables g) with
+  | None => None
+  | Some ew => Some (map (fun o => decode (nth o (gWires g) w0) (nth o ew 0%N)) (output_wires c))
+  end.
+
+(* The hypothesis "no gate writes an input wire" of C01 cannot be dropped: the
+   garbler hands out input labels from Garbled.Wires AFTER garbling, so for a
+   circuit that overwrites an input wire the evaluated output label is not one
+   of the output wire's labels (BitFromLabel errors) although Compute is defined. *)
+Lemma input_overwrite_refuted :
+  wf_parser overwrite_circuit = true /\ wf overwrite_circuit = false /\
+  eval_plain overwrite_circuit [true; true] = [false] /\
+  decoded_outputs (aes_pi (aes_schedule (be_bytes 16 7))) (fun i => N.of_nat (1000 + 37 * i))
+                  overwrite_circuit [true; true] = Some [None].
+Proof. vm_compute. repeat split. Qed.
